@@ -676,7 +676,7 @@ class Run:
         names = []
         try:
             for el in visitors.iterate(n.stmt()):
-                if isinstance(el, BindParameter) and not el.unique and el.key not in names:
+                if isinstance(el, BindParameter) and not el.unique and el.key not in names and not str(el.key).startswith("%("):
                     names.append(el.key)
         except (sa_exc.SQLAlchemyError, AttributeError):
             pass
